@@ -59,9 +59,29 @@ def kwarg(call: ast.Call, name: str) -> Optional[ast.expr]:
 
 
 def const_value(ctx, fi: FuncInfo, e: ast.expr):
-    """constant value of an expression in the context of function fi, or NotConst"""
+    """constant value of an expression in the context of function fi, or NotConst; `self.NAME` / `cls.NAME` read the
+    class-level constant NAME of fi's class"""
     from ..model import ConstEval
-    return ConstEval(ctx.repo, fi.module).eval(e, {})
+    env = {}
+    if fi.cls is not None:
+        for n in ast.walk(e):
+            if isinstance(n, ast.Attribute) and isinstance(n.value, ast.Name) and n.value.id in ("self", "cls"):
+                for st in fi.cls.node.body:
+                    tg = st.targets[0] if isinstance(st, ast.Assign) and len(st.targets) == 1 else (st.target if isinstance(st, ast.AnnAssign) else None)
+                    if isinstance(tg, ast.Name) and tg.id == n.attr and getattr(st, "value", None) is not None:
+                        try:
+                            env[f"__attr_{n.value.id}_{n.attr}"] = ConstEval(ctx.repo, fi.module).eval(st.value, {})
+                        except Exception:
+                            pass
+        if env:
+            class Sub(ast.NodeTransformer):
+                def visit_Attribute(self, node):
+                    if isinstance(node.value, ast.Name) and f"__attr_{node.value.id}_{node.attr}" in env:
+                        return ast.copy_location(ast.Name(f"__attr_{node.value.id}_{node.attr}", ast.Load()), node)
+                    return self.generic_visit(node)
+            import copy
+            e = ast.fix_missing_locations(Sub().visit(copy.deepcopy(e)))
+    return ConstEval(ctx.repo, fi.module).eval(e, env)
 
 
 def try_const(ctx, fi: FuncInfo, e: ast.expr, default=None):
